@@ -91,6 +91,12 @@ def catalogue(ck):
     add("dense-walsh", lambda: S(D(4, 6, parametrization="walsh"), D(6, 4, parametrization="walsh"), G(2)))
     add("conv", lambda: S(C(3, 1, 2), F(), G(2)))
     add("conv-pool-dense", lambda: S(C((3, 4), 1, 2), P(2, 1, 0), F(), D(8, 4), D(4, 4), G(2)))
+    # pooling windows that overlap, leave gaps, or are clipped by the padding (stride != kernel), outputs visible without a group sum
+    add("conv-pool-overlap", lambda: S(C((3, 3), 1, 2), P(2, 1, 0), F()))
+    add("conv-pool-pad-overlap", lambda: S(C((3, 3), 1, 2), P(3, 2, 1), F()))
+    add("conv-pool-overlap-pad1", lambda: S(C((2, 4), 1, 2, padding=1), P(3, 1, 1), F()))
+    add("conv-pool-gap", lambda: S(C((4, 3), 1, 2, padding=1), P(1, 2, 0), F()))
+    add("conv3d-pool-overlap", lambda: S(C3(2, 1, 2, padding=1), P(2, 1, 0), F()))
     add("conv-conv-pad", lambda: S(C(3, 1, 2, padding=1), C(4, 2, 2, rf=3, padding=1), F(), G(4)))
     add("conv-walsh", lambda: S(C(3, 1, 2, parametrization="walsh"), I(), F(), D(8, 4, parametrization="walsh"), G(2)))
     add("conv3d", lambda: S(C3(2, 1, 2, padding=1), F(), D(54, 4), G(1)))
@@ -310,7 +316,7 @@ def run(ck: Check):
     # must be forgotten - the library computes the container as it is now, or the compilation is refused
     from torchlogix.layers import GroupSum as _GS
     for kind in ("dense", "conv"):
-        for change in ("drop-groupsum", "other-k", "add-groupsum", "drop-last-dense"):
+        for change in ("drop-groupsum", "other-k", "add-groupsum", "drop-last-dense", "narrower-last-dense", "wider-last-dense"):
             for first_compile in (False, True):
                 torch.manual_seed(ck.seed + 9)
                 if kind == "dense":
@@ -333,6 +339,14 @@ def run(ck: Check):
                     model[-1] = _GS(4, 1.0, device="cpu")
                 elif change == "add-groupsum":
                     model.append(_GS(2, 1.0, device="cpu"))
+                elif change in ("narrower-last-dense", "wider-last-dense"):
+                    # the last layer is replaced by one of another width (12 -> 6 / 24 outputs, still divisible by k = 3): the adder must
+                    # be built for the width the container has NOW
+                    from torchlogix.layers import LogicDense as _LD
+                    n_out = 6 if change == "narrower-last-dense" else 24
+                    new_last = _LD(12, n_out, device="cpu")
+                    nets.set_gates(rng, new_last, [rng.randrange(16) for _ in range(n_out)], "raw")
+                    model[-2] = new_last
                 else:
                     del model[-2]
                 try:
